@@ -51,7 +51,7 @@ def cases(tier):
                              shapes_override={1: [(4,)], 2: [(4, 1), (1, 4), (4, 2), (2, 4), (4, 4), (3, 4)]})
         specs = specs + extra
     for s in specs:
-        for part in ("diff", "conv", "upw", "upwdir", "tvd01"):
+        for part in ("diff", "conv", "upw", "upwdir", "upwmag", "tvd01"):
             out.append({"grid": s, "part": part})
     # limiter sweep on a reduced set of grids
     for s in specs:
@@ -226,6 +226,48 @@ def _upwind_dir_part(g, res):
                 "detail": {"grid": U.spec_id(g.spec), "pattern": pi}})
 
 
+MAGS = [2.0 ** -40, 2.0 ** -70, 2.0 ** 50]
+
+
+def _upwind_mag_part(g, res):
+    """The upwind identity for velocities (and explicit direction fields) of very small / very large
+    magnitude - slow flows in SI units, fast ones in micro-units; every sign pattern of _dir_patterns
+    (1-D: all) on a generic |u|.  The donor cell depends on the sign of the direction only."""
+    findings = res["findings"]
+    rows = np.flatnonzero(g.imask)
+    absu = g.face_arrays(U.generic_face(g.mesh, tag=5, signed=False))
+    pats = _dir_patterns(g)
+    if g.d == 1 and len(pats) > 16:
+        pats = pats[:8] + pats[-8:]
+    for mag in MAGS:
+        for pi, sg in enumerate(pats):
+            u = U.face_from_arrays(g.mesh, [a * s_ * mag for a, s_ in zip(absu, sg)])
+            one = U.face_from_arrays(g.mesh, [a * s_ for a, s_ in zip(absu, sg)])
+            tiny_dir = U.face_from_arrays(g.mesh, [s_ * mag for s_ in sg])
+            variants = [("u", dense(pf.convectionUpwindTerm(u)), u, u)]
+            if pi < 4:
+                variants.append(("u_upwind", dense(pf.convectionUpwindTerm(one, tiny_dir)), one, tiny_dir))
+            for what, M, uu, dd in variants:
+                chain = np.zeros((g.n, g.n))
+                for j in range(g.n):
+                    res["evals"] += 1
+                    chain[:, j] = _div(g, uu * pf.upwindMean(g.unit_cell(j), dd))
+                a = M[rows]
+                b = chain[rows]
+                res["nontrivial"] += int(np.count_nonzero((a != 0) | (b != 0)))
+                bad = cmp_tol(a, b)
+                if bad.any():
+                    rc = np.argwhere(bad)[0]
+                    i = int(rows[rc[0]])
+                    findings.append({
+                        "key": "C05:upwmag:%s:%s" % (what, g.cls),
+                        "msg": "convectionUpwindTerm on %s with |%s| ~ %.3g (sign pattern %d) differs from divergenceTerm(u*upwindMean(phi,.)): %.6g vs %.6g at row %s col %s"
+                               % (U.spec_id(g.spec), what, mag, pi, a[tuple(rc)], b[tuple(rc)], list(g.cell_of_flat(i)),
+                                  list(g.cell_of_flat(int(rc[1])))),
+                        "detail": {"grid": U.spec_id(g.spec), "pattern": pi, "magnitude": mag}})
+                    break
+
+
 def _FL0(r):
     return 0.0 * r
 
@@ -384,7 +426,7 @@ def _tvdref_part(g, res):
 def weight(case):
     sh = case["grid"]["shape"]
     n = int(np.prod([k + 2 for k in sh]))
-    w = {"diff": 1, "conv": 1, "upw": 4, "upwdir": 1, "tvd01": 3, "tvdref": 6, "tvddir": 6}[case["part"]]
+    w = {"diff": 1, "conv": 1, "upw": 4, "upwdir": 1, "upwmag": 3, "tvd01": 3, "tvdref": 6, "tvddir": 6}[case["part"]]
     return n * n * len(sh) * w
 
 
@@ -434,6 +476,8 @@ def run_case(case):
         _bilinear_part(g, part, res)
     elif part == "upw":
         _upwind_part(g, res)
+    elif part == "upwmag":
+        _upwind_mag_part(g, res)
     elif part == "upwdir":
         _upwind_dir_part(g, res)
     elif part == "tvd01":
